@@ -33,7 +33,7 @@ struct Params {
 }
 
 fn scenario(pr: &Params) -> Verdict {
-    world::reset(world::WorldCfg { nested_env: false, yields: false, select: false, policy: 0 });
+    world::reset(world::WorldCfg { nested_env: false, yields: false, select: false, policy: 0, coop: false });
     let ty = pr.ty;
     let (stream, _wire, expect) = crate::c02::socket_stream(ty);
     let hs_len = rc::handshake(ty.peer_type(), Some(b"P1")).len();
@@ -219,7 +219,7 @@ fn scenario(pr: &Params) -> Verdict {
 /// polled / dropped per the action string; the reply must still be accepted and reach the requester,
 /// and a request arriving meanwhile must still be delivered afterwards.
 fn rep_state_scenario(actions: &str, second_request_early: bool) -> Verdict {
-    world::reset(world::WorldCfg { nested_env: false, yields: false, select: false, policy: 0 });
+    world::reset(world::WorldCfg { nested_env: false, yields: false, select: false, policy: 0, coop: false });
     let c = e3::raw_conn("req");
     c.send(&rc::handshake("REQ", Some(b"R")));
     c.send(&rc::encode_message(&[vec![], b"q1".to_vec()]));
